@@ -57,8 +57,18 @@ func newMemWatch() *memWatch {
 	return &memWatch{ctx: ctx, cancel: cancel, in: make(chan *etcdserverpb.WatchRequest, 4)}
 }
 func (m *memWatch) Send(r *etcdserverpb.WatchResponse) error {
+	// as gRPC does: the message is marshalled at Send time, so what the client sees is a copy taken now
+	// (aliasing between the events of a batch, or a later mutation by the producer, shows up as it would on the wire)
+	b, err := r.Marshal()
+	if err != nil {
+		return err
+	}
+	c := &etcdserverpb.WatchResponse{}
+	if err := c.Unmarshal(b); err != nil {
+		return err
+	}
 	m.mu.Lock()
-	m.out = append(m.out, r)
+	m.out = append(m.out, c)
 	m.mu.Unlock()
 	return nil
 }
